@@ -435,6 +435,45 @@ theorem onSameHost_not_offsite (loc : Str) (h : Spec.onSameHost loc = true) :
   simp only [Bool.and_eq_true, Bool.not_eq_true', Bool.or_eq_false_iff, beq_iff_eq] at h
   exact ⟨h.2.1, h.2.2, h.1⟩
 
+theorem vchar_lt (c : Nat) (h : C26.vchar c = true) : c < 0x800 := by
+  simp [C26.vchar] at h
+  omega
+
+/-- **handleDeco_auth_login_url.**  Whole request, no side condition on the target (the request-line grammar bounds its
+characters): whenever `@authenticated` redirects, the Location is the configured login URL, optionally followed by
+`?next=` and percent-encoded text.  (`protocol`/`host` are below U+0800: they come from the connection and a latin-1 header.) -/
+theorem handleDeco_auth_login_url (li : Bool) (login : Str) (sch : Bool) (proto host : Str) (pat : C26.Pat) (m : Method)
+    (target : Str) (st : Nat) (loc : Str) (hp : ∀ c ∈ proto, c < 0x800) (hh : ∀ c ∈ host, c < 0x800)
+    (h : handleDeco (.auth li login sch proto host) pat m target = .redirect st loc) :
+    Spec.loginRedirectOk login loc = true := by
+  unfold handleDeco at h
+  simp only [] at h
+  split at h
+  · cases h
+  rename_i hv
+  have hv' : ∀ c ∈ target, c < 0x800 := by
+    intro c hc
+    have hv2 : C26.validTarget target = true := by simpa using hv
+    simp only [C26.validTarget, Bool.and_eq_true, List.all_eq_true] at hv2
+    exact vchar_lt c (hv2.2 c hc)
+  split at h
+  · cases h
+  · split at h
+    · cases h
+    · refine login_redirect_is_login_url li m login sch target (fullUrl proto host target) st loc hv' ?_ (ofOut_redirect _ _ _ h)
+      intro c hc
+      unfold fullUrl at hc
+      simp only [List.mem_append, List.mem_cons] at hc
+      rcases hc with ((hc | hc) | hc) | hc
+      · exact hp c hc
+      · rcases hc with hc | hc | hc | hc
+        · omega
+        · omega
+        · omega
+        · cases hc
+      · exact hh c hc
+      · exact hv' c hc
+
 /-! ### non-vacuity -/
 
 -- "//evil.example/" under @removeslash: refused (403), no redirect; "/foo/" → 301 /foo?x
